@@ -407,6 +407,37 @@ impl Prop for C14 {
                 stats.hit("shared_subject");
             }
         }
+        if i % 6 == 1 {
+            // the database also carries prefix declarations (as after loading a Turtle document with @prefix); terms inside
+            // the declared namespaces, with local parts that are not plain names
+            stats.hit("db_with_prefixes");
+            let fmt = if rng.chance(3, 4) { "ttl" } else { fmt };
+            let locals = ["alice", "report.v2.pdf", "a.b", "x-1", "v1.", "a/b", "a#b", "", "%41", "q?x=1"];
+            let nss = [("ex", "http://ex.org/"), ("ns", "http://ex.org/ns#"), ("e", "http://e/")];
+            let np = rng.range(1, 2);
+            let mut chosen: Vec<(&str, &str)> = Vec::new();
+            for _ in 0..np {
+                let c = *rng.pick(&nss);
+                if !chosen.iter().any(|x| x.0 == c.0) {
+                    chosen.push(c);
+                }
+            }
+            let mut in_ns = |rng: &mut Rng| format!("{}{}", rng.pick(&chosen).1, rng.pick(&locals));
+            for q in quads.iter_mut() {
+                if rng.chance(1, 2) {
+                    q.0 = Term::Plain(in_ns(rng));
+                }
+                if rng.chance(1, 2) {
+                    q.1 = Term::Plain(in_ns(rng));
+                }
+                if rng.chance(1, 2) {
+                    q.2 = Term::Plain(in_ns(rng));
+                }
+            }
+            let pf: Vec<String> = chosen.iter().map(|(k, v)| format!("{}={}", k, hex(v))).collect();
+            let toks: Vec<String> = quads.iter().map(show_quad_tok).collect();
+            return format!("export rtp {} {}{}", fmt, pf.join(","), with_sp(&toks));
+        }
         if i % 5 == 4 {
             // malformed stream: text produced by the real generator, then damaged (readers' correspondence only)
             stats.hit(&format!("parse_mutated_{}", fmt));
@@ -435,15 +466,36 @@ impl Prop for C14 {
             return "bad-request".into();
         }
         match toks[1] {
-            "rt" => {
+            "rt" | "rtp" => {
                 let mut quads = Vec::new();
-                for t in &toks[3..] {
+                let mut prefixes: Vec<(String, String)> = Vec::new();
+                let first = if toks[1] == "rtp" {
+                    if toks.len() < 4 {
+                        return "bad-request".into();
+                    }
+                    if toks[3] != "-" {
+                        for item in toks[3].split(',') {
+                            let mut it = item.split('=');
+                            match (it.next(), it.next().and_then(unhex)) {
+                                (Some(k), Some(v)) => prefixes.push((k.to_string(), v)),
+                                _ => return "bad-request".into(),
+                            }
+                        }
+                    }
+                    4
+                } else {
+                    3
+                };
+                for t in &toks[first..] {
                     match parse_quad_tok(t) {
                         Some(q) => quads.push(q),
                         None => return "bad-request".into(),
                     }
                 }
-                let db = build_db(&quads);
+                let mut db = build_db(&quads);
+                for (k, v) in prefixes {
+                    db.prefixes.insert(k, v);
+                }
                 let text = generate(&db, fmt);
                 let r = std::panic::catch_unwind(std::panic::AssertUnwindSafe(|| {
                     let mut db2 = SparqlDatabase::new();
